@@ -1199,8 +1199,14 @@ class C06(Prop):
                 parts.append("@if(flag)(" + r + ")@else none@end")
             elif w < 0.8:
                 parts.append("@each(k in items){{ k }}:" + r + ";@end")
-            else:
+            elif w < 0.88:
                 parts.append("@if(n > 1)@each(k in [1])<" + r + ">@end@end")
+            elif w < 0.92:
+                parts.append("@if(big)x@elseif(flag)[" + r + "]@else y@end")
+            elif w < 0.96:
+                parts.append("@if(big)x@else<e>" + r + "</e>@end")
+            else:
+                parts.append("@for(i = 0; i < 2; i++)(" + r + ")@end")
             parts.append(rng.choice(["", " ", "\n", "{{ name }}"]))
         parts.append("</html>")
         return parts
@@ -1233,6 +1239,24 @@ class C06(Prop):
             files = [("%s/page%s" % (dd, e), "file", "".join(page)), ("%s/layouts/main%s" % (dd, e), "file", lsrc)]
             ops = [op_new(d, e), op_string("page", TREE_DATA), op_evalstr(inlined, TREE_DATA), op_string("layouts/main", TREE_DATA)]
             lines.append(tree_case("C06:%d" % i, files, ops, ["ok:0", "eq:1:2", "err:3", "nopanic"]))
+        # a reserve evaluated once per pass of a loop: the insert must be rendered afresh in every pass
+        loops = [("<ul>@each(k in items)<li>@reserve('row')</li>@end</ul>", ["{{ k }}", "{{ loop.iter }}.{{ k }}", "@if(loop.first)F@end{{ k }}",
+                                                                              "{{ cnt = k * 2 }}{{ cnt }}", "k", "loop.index", "k * n"]),
+                 ("@for(i = 0; i < 3; i++)[@reserve('row')]@end", ["{{ i }}", "{{ i * n }}", "i", "i + 1"]),
+                 ("@each(a in items)@each(b in items)(@reserve('row'))@end@end", ["{{ a }}{{ b }}", "a * 10 + b", "{{ loop.index }}"]),
+                 ("@if(big)x@elseif(flag)<@reserve('row')>@else y@end|@if(big)x@elseif(big)y@else<e>@reserve('two')</e>@end", ["{{ name }}", "n"])]
+        for li, (lay, contents) in enumerate(loops):
+            for ci, c in enumerate(contents):
+                if c.startswith("{{") or c.startswith("@"):
+                    page, sub = "@use('~main')@insert('row')%s@end" % c, c
+                else:
+                    page, sub = "@use('~main')@insert('row', %s)" % c, "{{ " + c + " }}"
+                if "'two'" in lay:
+                    page += "@insert('two')2:%s@end" % sub
+                inlined = lay.replace("@reserve('row')", sub).replace("@reserve('two')", "2:" + sub)
+                files = [("tpl/page.tw", "file", page), ("tpl/layouts/main.tw", "file", lay)]
+                ops = [op_new("tpl", ".tw"), op_string("page", TREE_DATA), op_evalstr(inlined, TREE_DATA)]
+                lines.append(tree_case("C06:l%d_%d" % (li, ci), files, ops, ["ok:0", "ok:1", "eq:1:2", "nopanic"]))
         # the four error cases
         for i in range({"quick": 60, "thorough": 300, "search": 80}[tier]):
             lay = "<t>@reserve('title')</t>@reserve('body')"
@@ -1792,7 +1816,7 @@ class C18(Prop):
             ext = rng.choice(exts)
             cands = [("a" + ext, "A"), ("b" + ext, "B{{ 1 }}"), ("sub/c" + ext, "C"), ("sub/deep/d" + ext, "D"), ("a" + ext + ".bak", "@if("),
                      ("notes" + ext + "x", "{{ ) }}"), ("x" + ext + "/inner" + ext, "I"), ("layouts/l" + ext, "L@reserve('r')"),
-                     ("readme.md", "@if("), ("sub/a" + ext, "SA")]
+                     ("readme.md", "@if("), ("sub/a" + ext, "SA"), ("b" + ext + ext, "BB"), ("sub/c" + ext + ext, "CC")]
             chosen = rng.sample(cands, rng.choice([1, 2, 3, 4, 5]))
             files = [(real + "/" + p, "file", c) for p, c in chosen]
             if rng.random() < 0.3:
@@ -1809,6 +1833,18 @@ class C18(Prop):
             ops.append(op_string("no/such"))
             cons += ["err:%d" % k, "msgsub:%d:%s" % (k, hx("template not found"))]
             k += 1
+            # a name is looked up as it is: spelling the extension does not find the file, and a file whose
+            # name ends in the extension twice is found under the name that keeps one of them
+            for nm in names[:3]:
+                if (nm + ext) not in names:
+                    ops.append(op_string(nm + ext))
+                    cons += ["err:%d" % k, "msgsub:%d:%s" % (k, hx("template not found"))]
+                    k += 1
+            for nm in names:
+                if nm.endswith(ext):
+                    ops.append(op_string(nm))
+                    cons += ["ok:%d" % k]
+                    k += 1
             if any("@reserve" in c and p.endswith(ext) for p, c in chosen):
                 ops.append(op_string("layouts/l"))
                 cons += ["err:%d" % k]
